@@ -137,7 +137,7 @@ Definition star_free (g : graph) : bool := forallb (fun m => match m_stars m wit
 Definition plain_modules (g : graph) : bool :=
   forallb (fun m => negb (m_lazy m) && negb (m_is_ts m)
                     && forallb (fun ni => negb (ni_generated ni)) (m_imports m)
-                    && forallb (fun ni => match import_target m ni with Some _ => true | None => false end) (m_imports m)
+                    && forallb (fun ni => match import_target m ni with Some t => Nat.ltb t (length g) | None => false end) (m_imports m)
                     && negb (existsb (fun ni => Nat.eqb (ni_ref ni) (m_exports_ref m)) (m_imports m))) g.
 
 (* rank certificate: every indirect export points to a file of strictly smaller rank
@@ -151,6 +151,14 @@ Definition indirect_edges (m : module) : list nat :=
 Definition ranked_indirect (g : graph) (rk : list nat) : bool :=
   forallb (fun s => forallb (fun t => Nat.ltb (rank_of rk t) (rank_of rk s)) (indirect_edges (getm g s)))
           (seq 0 (length g)).
+
+(* every file (the runtime file 0 included) is an ES module whose import records are import
+   statements resolved to files of the graph: steps 1-2 of scanImportsAndExports then change nothing *)
+Definition esm_graph (g : graph) : bool :=
+  forallb (fun m => ekind_eqb (m_kind m) EESM
+                    && forallb (fun r => ikind_eqb (r_kind r) KStmt
+                                         && match r_target r with Some t => Nat.ltb t (length g) | None => false end)
+                               (m_records m)) g.
 
 Definition chain_scope (g : graph) (rk : list nat) : bool :=
   star_free g && plain_modules g && named_targets_export g && ranked_indirect g rk.
